@@ -219,7 +219,8 @@ class Engine:
                 self.vc_keys.add(key)
                 self.vcs.append(VC(name, [], [], z3.BoolVal(True), meta=dict(meta or {}, trivial=True)))
             return
-        hyps = self.hyps() + list(extra_hyps) + self.hint_lemma_instances(name)
+        base = self.hyps()
+        hyps = base + list(extra_hyps) + self.hint_lemma_instances(name)
         key = (name, tuple(h.get_id() for h in hyps), goal.get_id(),
                tuple(id(s) for s in self.st.schemas))
         if key in self.vc_keys:
@@ -227,6 +228,7 @@ class Engine:
         self.vc_keys.add(key)
         m = dict(meta or {})
         m.setdefault("path", list(self.trace))
+        m["nbase"] = len(base)
         extra_terms = list(extra_terms) + self.hint_terms()
         vc = VC(name, hyps, list(self.st.schemas) + self.reg.global_schemas(self), goal, extra_terms, m)
         vc._keep = hyps  # keep z3 refs alive
